@@ -43,6 +43,7 @@ type SpecDecl struct {
 	Params string // Go parameter list text, without parens
 	Result string // Go result type text
 	Body   string // spec expression text ("" for ghost)
+	Serves []string
 	File   string
 	Line   int
 }
@@ -216,6 +217,11 @@ func parseDecl(txt string) (*SpecDecl, error) {
 	case "ghost func":
 		d.Kind = "ghost"
 	case "lemma":
+		for _, w := range strings.Fields(d.Result) {
+			if w != "serves" {
+				d.Serves = append(d.Serves, w)
+			}
+		}
 		d.Kind, d.Result = "lemma", "bool"
 	}
 	return d, nil
